@@ -152,3 +152,48 @@ def register_unbounded(reg):
                  ("domains[num_integrals:]", "domains[offsets[-1] :]"),
                  ("domains += [ir.integral_domains[itg_type][i] for i in id_sort]",
                   "domains += [ir.integral_domains[itg_type][i] for i in np.argsort(_ids)]")]))
+
+
+def register_tensor_sizes(reg):
+    """common.tensor_sizes(IntegralIR): the sizes the numba wrapper declares cover the UFCx extents (C08, C18)."""
+    import z3
+
+    from ffcx.ir.representation import IntegralIR
+    from pyvc.contract import Bool, Custom, Enum
+    from pyvc.values import SV
+
+    class Obj:
+        def __init__(self, **kw):
+            self.__dict__.update(kw)
+
+    def mk_ir(interp, name):
+        def pos(n):
+            v = SV(z3.Int(n), "int")
+            interp.ctx.assume(v.z >= 1)
+            return v
+
+        rank = interp.ctx.decide(3, "rank")
+        itype = ["cell", "exterior_facet", "interior_facet", "vertex", "ridge"][interp.ctx.decide(5, "integral_type")]
+        dims = [pos(f"dim{k}") for k in range(2)]
+        coeffs = {Obj(ufl_element=(lambda d=d: Obj(dim=d))): 0 for d in dims}
+        shapes = [(), (pos("n1"),), (pos("n2"), pos("n3"))]
+        consts = {Obj(ufl_shape=s): 0 for s in shapes}
+        expr = Obj(tensor_shape=[pos(f"A{k}") for k in range(rank)], coefficient_offsets=coeffs, original_constant_offsets=consts,
+                   number_coordinate_dofs=pos("ncd"), needs_facet_permutations=SV(z3.Bool("needs_perm"), "bool"), integral_type=itype)
+        interp.ctx.ghost["dims"] = dims
+        interp.ctx.ghost["shapes"] = shapes
+        return Obj(expression=expr)
+
+    fn = common.tensor_sizes.registry[IntegralIR]
+    reg.add(Contract(
+        F + "tensor_sizes[IntegralIR]", dict(ir=Custom(mk_ir)), fn=fn, ghost_names=["dims", "shapes"],
+        ensures=[
+            "result.A == prod(ir.expression.tensor_shape)",
+            # w[coefficient][restriction][dof]: doubled for interior facets
+            "result.w == (2 if ir.expression.integral_type == 'interior_facet' else 1) * sum(ghost('dims'))",
+            "result.c == sum([prod(s) for s in ghost('shapes')])",
+            "result.coords == (2 if ir.expression.integral_type == 'interior_facet' else 1) * 3 * ir.expression.number_coordinate_dofs",
+            "result.local_index >= 2 and implies(ir.expression.needs_facet_permutations, result.permutation >= 2)",
+        ],
+        properties=["C08", "C18"], modular=False, name="tensor_sizes[IntegralIR]", bounded="2 coefficients, 3 constants, rank <= 2",
+        mutants=[("w = width * sum(", "w = sum(")]))
